@@ -522,6 +522,61 @@ def pivot_guard(chk, prog, funcs):
                     d = diag_of(r)
                     if l.get('kind') == 'DeclRefExpr' and d:
                         diag_alias[l['referencedDecl']['id']] = (d, n)
+            # cached row pointers:  double *row_i = W->data[i];  -- valid as a name for that row when every assignment of the pointer has this form
+            row_alias = {}
+            bad_alias = set()
+            for n in walk(f.body):
+                init = None
+                if n.get('kind') == 'VarDecl' and kids(n) and 'double *' in fe.qual(n).replace('const ', ''):
+                    vid, init = n.get('id'), kids(n)[-1]
+                elif is_assign(n) and n.get('opcode') == '=' and strip(kids(n)[0]).get('kind') == 'DeclRefExpr' and \
+                        'double *' in fe.qual(strip(kids(n)[0])).replace('const ', ''):
+                    vid, init = strip(kids(n)[0])['referencedDecl']['id'], kids(n)[1]
+                if init is None:
+                    continue
+                i0 = strip(init)
+                ok_ = False
+                if i0.get('kind') == 'ArraySubscriptExpr':
+                    bb = strip(kids(i0)[0])
+                    if bb.get('kind') == 'MemberExpr' and bb.get('name') == 'data':
+                        key = (exprs.text_key(kids(bb)[0]), exprs.text_key(kids(i0)[1]), strip(kids(i0)[1]))
+                        if vid in row_alias and row_alias[vid][:2] != key[:2]:
+                            bad_alias.add(vid)
+                        row_alias[vid] = key
+                        ok_ = True
+                if not ok_:
+                    bad_alias.add(vid)
+            for vid in bad_alias:
+                row_alias.pop(vid, None)
+
+            def akey(e):
+                """text key of a cell, with a cached row pointer written out:  row_i[k]  ->  W->data[i][k]"""
+                e = strip(e)
+                if e.get('kind') == 'ArraySubscriptExpr':
+                    b = strip(kids(e)[0])
+                    if b.get('kind') == 'DeclRefExpr' and b['referencedDecl']['id'] in row_alias:
+                        w, r, _ = row_alias[b['referencedDecl']['id']]
+                        return '%s->data[%s][%s]' % (w, r, exprs.text_key(kids(e)[1]))
+                return exprs.text_key(e)
+
+            def adiag(e):
+                d_ = diag_of(e)
+                if d_:
+                    return d_
+                e = strip(e)
+                if e.get('kind') == 'ArraySubscriptExpr':
+                    b = strip(kids(e)[0])
+                    if b.get('kind') == 'DeclRefExpr' and b['referencedDecl']['id'] in row_alias:
+                        w, r, rn = row_alias[b['referencedDecl']['id']]
+                        if exprs.text_key(kids(e)[1]) == r:
+                            return w, r, (rn['referencedDecl']['name'] if rn.get('kind') == 'DeclRefExpr' else None)
+                return None
+            for n in walk(f.body):
+                if is_assign(n) and n.get('opcode') == '=':
+                    l, r = strip(kids(n)[0]), strip(kids(n)[1])
+                    d = adiag(r)
+                    if l.get('kind') == 'DeclRefExpr' and d and fe.is_float_type(l):
+                        diag_alias.setdefault(l['referencedDecl']['id'], (d, n))
             ndiv = 0
             for n in walk(f.body):
                 isdiv = (n.get('kind') == 'BinaryOperator' and n.get('opcode') == '/') or \
@@ -529,7 +584,7 @@ def pivot_guard(chk, prog, funcs):
                 if not isdiv or not fe.is_float_type(strip(kids(n)[1], casts=False)):
                     continue
                 dv = strip(kids(n)[1])
-                d = diag_of(dv)
+                d = adiag(dv)
                 at = n
                 if d is None and dv.get('kind') == 'DeclRefExpr' and dv['referencedDecl']['id'] in diag_alias:
                     d, at = diag_alias[dv['referencedDecl']['id']]
@@ -539,7 +594,7 @@ def pivot_guard(chk, prog, funcs):
                 # only elimination ratios  W[x][e] / W[e][e]  (x != e): scaling a row by its own pivot afterwards is not
                 # a pivoting question
                 num = strip(kids(n)[0])
-                nk = exprs.text_key(num)
+                nk = akey(num)
                 if not (num.get('kind') == 'ArraySubscriptExpr' and nk.startswith(wkey + '->data[') and nk.endswith('[%s]' % ekey)
                         and not nk.startswith('%s->data[%s]' % (wkey, ekey))):
                     continue
@@ -552,7 +607,7 @@ def pivot_guard(chk, prog, funcs):
                 for anc in flow.ancestors(pm, n):
                     if anc.get('kind') == 'IfStmt':
                         c, t, e = flow.if_parts(anc)
-                        if any(cell_key(x) == cellkey for x in walk(c) if x.get('kind') == 'ArraySubscriptExpr'):
+                        if any(cell_key(x) == cellkey or akey(x) == cellkey for x in walk(c) if x.get('kind') == 'ArraySubscriptExpr'):
                             tested = True
                     child = anc
                 # (2) replaced: inside the loop over the pivot variable, before `at`, a store into row e of W
